@@ -272,6 +272,7 @@ def run(ctx):
     ctx.guard("C01.R4", "scope push/pop", lambda: r4_push_pop(ctx))
     ctx.guard("C01.R5", "entry API", lambda: r5_entry_api(ctx))
     ctx.guard("C01.R6", "named accessors of State", lambda: r6_named_accessors(ctx))
+    ctx.guard("C01.R7", "a pushed scope is popped on every exit", lambda: r7_inner_state(ctx))
 
 
 def r5_entry_api(ctx):
@@ -498,3 +499,75 @@ def r6_named_accessors(ctx):
                 bad.append((scen, "asks the registry for %s, expected %s" % (asked, BEST)))
         ctx.check(not bad, "C01.R6", fn.key, "is-the-recorded-best", "BestIndividual %s: State::%s() %s" % ((bad[0][0], name, bad[0][1]) if bad else ("", name, "")), loc=fn.loc())
     ctx.count("named_accessor_scenarios", n)
+
+
+def r7_inner_state(ctx):
+    """K6 on State::with_inner_state (the only place the crate pushes a scope): the closure runs on a child of the caller's
+    registry; whether it succeeds or fails, afterwards the caller's state holds exactly its own registry again (the scope is
+    popped, everything it shadowed is visible again, nothing else is lost); Ok hands back the detached child's entries, Err
+    the closure's error."""
+    from absint import Interp, Sym, Agg, Ref, HRef, TOP, some, NONE, ok, err, std_oracle, chain
+    from collmodel import coll_oracle, install as _inst, load
+    F = ctx.facts
+    fn = F.fn("mahf::state::State::with_inner_state")
+    reg_i = F.field_index("mahf::state::State", "registry")
+    nf = len(F.adt("mahf::state::State")["variants"][0]["fields"])
+    home = 11001
+    bad = []
+    for outcome in ("ok", "err"):
+        def oracle(interp, env, f, args, t, bb, path, outcome=outcome):
+            k = f.get("key", "")
+            nm = f.get("name")
+            a0 = load(interp, env, args[0]) if args else None
+            if k == R + "into_child" and isinstance(a0, Sym) and a0.tag == "parent-registry":
+                return Sym("child-registry")
+            if k == R + "into_parent" and isinstance(a0, Sym) and a0.tag == "child-registry":
+                return Agg("tuple", None, None, [some(Sym("parent-registry")), Sym("detached-child")])
+            if k in ("core::mem::take", "core::mem::replace") and isinstance(a0, Sym) and a0.tag == "parent-registry" and isinstance(args[0], (Ref, HRef)):
+                from collmodel import store_ref
+                store_ref(interp, env, args[0], Sym("placeholder-registry") if nm == "take" else load(interp, env, args[1]))
+                return a0
+            if k in (R + "new", "core::default::Default::default") and not args:
+                return Sym("placeholder-registry")
+            if k in ("core::convert::Into::into", "core::convert::From::from") and args:
+                ga = f.get("gargs") or ["", ""]
+                src, dst = (ga[0], ga[-1]) if nm == "into" else (ga[-1], ga[0])
+                if "StateRegistry" in src and dst.startswith("mahf::state::State"):
+                    vals = [Sym("phantom")] * nf
+                    vals[reg_i] = a0
+                    return Agg("adt", "mahf::state::State", "State", vals)
+                if src.startswith("mahf::state::State") and "StateRegistry" in dst and isinstance(a0, Agg):
+                    return a0.fields[reg_i]
+            if (nm in ("call_once", "call", "call_mut") or f.get("kind") == "fnptr") and args and isinstance(a0, Sym) and a0.tag == "user-closure":
+                inner = load(interp, env, args[1])
+                if isinstance(inner, Agg) and inner.kind == "tuple" and inner.fields:
+                    inner = load(interp, env, inner.fields[0])
+                interp.mstate["closure_saw"] = str(inner.fields[reg_i]) if isinstance(inner, Agg) and inner.name == "mahf::state::State" else str(inner)
+                return err(Sym("closure-error")) if outcome == "err" else ok(Agg("tuple", None, None, []))
+            return TOP
+        vals = [Sym("phantom")] * nf
+        vals[reg_i] = Sym("parent-registry")
+        it = _inst(Interp(fn.body, chain(oracle, coll_oracle, std_oracle), [Ref(home, [], frame="root"), Sym("user-closure")], facts=F,
+                          inline=lambda k: k.startswith("mahf::state::State::") or k.startswith("<mahf::state::State") or k.startswith("<mahf::state::registry::StateRegistry as core::convert::From<mahf::state::State"), max_visits=8))
+        it.extra_env = {home: Agg("adt", "mahf::state::State", "State", vals)}
+        paths = it.run()
+        label = "the closure %s" % ("succeeds" if outcome == "ok" else "fails")
+        if len(paths) != 1 or paths[0].end != "return":
+            bad.append((label, "is not decided (%s)" % [(p.end, str(p.ret)[:40]) for p in paths]))
+            continue
+        p0 = paths[0]
+        st = p0.env.get(home)
+        now = st.fields[reg_i] if isinstance(st, Agg) else None
+        res = p0.ret.variant if isinstance(p0.ret, Agg) else None
+        if p0.mstate.get("closure_saw") != "Sym(child-registry)":
+            bad.append((label, "runs the closure on %s, expected a child of the caller's registry" % p0.mstate.get("closure_saw")))
+        elif now != Sym("parent-registry"):
+            bad.append((label, "leaves the caller's state with %s instead of its own registry (the pushed scope is not popped: everything the caller held is gone)" % now))
+        elif res != ("Ok" if outcome == "ok" else "Err"):
+            bad.append((label, "returns %s" % res))
+        elif outcome == "ok":
+            inner = p0.ret.fields[0]
+            got = inner.fields[reg_i] if isinstance(inner, Agg) and inner.name == "mahf::state::State" else inner
+            if got != Sym("detached-child"):
+                bad.append((label, "hands back %s, expected the popped scope's own entries" % got))
+    ctx.check(not bad, "C01.R7", fn.key, "scope-popped-on-every-exit", "%s: with_inner_state %s" % (bad[0] if bad else ("", "")), loc=fn.loc())
